@@ -64,6 +64,10 @@ def flatten(h, acc):
             flatten(c, acc)
     elif z3.is_true(h):
         pass
+    elif z3.is_implies(h) and z3.is_and(h.arg(1)):
+        # g => (a and b)  ==  (g => a) and (g => b): keeps the quantifier-free conjuncts of a guarded contract usable in the QF stages
+        for c in h.arg(1).children():
+            flatten(z3.Implies(h.arg(0), c), acc)
     else:
         acc.append(h)
     return acc
